@@ -160,7 +160,7 @@ def run(c):
     for li in range(1 if not thorough else 3):
         conn = "late%d" % li
         dip, dport, dname = dests[li % 3]
-        br = [{"op": "connect", "conn": conn, "attr": {"uid": 0, "admin": 1, "dip": dip, "dport": dport}}]
+        br = [{"op": "connect", "conn": conn, "attr": {"uid": 0, "admin": 1, "dip": dip, "dport": dport}, "timeout_ms": 90000}]
         for k_, (delay, rlen) in enumerate([(11500 + 4000 * li, 700), (0, 50)]):
             rid = "%s_%d" % (conn, k_ + 1)
             hs = [["Host", dip], ["X-Token", rid]]
